@@ -42,7 +42,9 @@ import CatVerif.Proofs.Resolve
 import CatVerif.Proofs.Log
 import CatVerif.Proofs.ResolveLine
 import CatVerif.Proofs.Readers
-import CatVerif.Proofs.Steps
+import CatVerif.Proofs.Steps.Found
+import CatVerif.Proofs.Steps.Resolve
+import CatVerif.Proofs.Steps.Lanes
 namespace Cat
 open St
 
